@@ -18,10 +18,10 @@ func init() {
 				"(mode) in every live Run every state mutator and every write to the reward pool lies inside the region guarded by the ok-edge of context.(*state.State); " +
 				"(atomic) once the first mutator of a Run has executed no rejecting return is reachable, so a Run either rejects with the state untouched or returns OK; " +
 				"(nonce) every path through the deliver region to the OK return calls Accounts.SetNonce(tx.Sender(), tx.Nonce) exactly on the signer and nonce of this tx, and nothing else in transaction code writes nonces; " +
-				"(failfee) the failure branch of RunTx performs only the whitelisted fee effects on the payer (sender, or check issuer for RedeemCheck), capped by the payer's balance, and never touches the nonce; nothing in RunTx before decodedData.Run mutates state. " +
+				"(failfee) the failure branch of RunTx performs only the whitelisted fee effects on the payer (sender, or check issuer for RedeemCheck), capped by the payer's balance, and never touches the nonce; nothing in RunTx before decodedData.Run mutates state; (postrun) after the dispatched Run has returned RunTx never answers with another, rejecting response, so an applied transaction is never reported as rejected (found and repaired: non-positive ticker price). " +
 				"NOT decided: that each mutator does what its name says, arithmetic of the fee, a panic half-way through a deliver block (C07).",
 			Assumptions: stdAssumptions,
-			Rules:       []string{"C03.mode", "C03.atomic", "C03.nonce", "C03.noncewriters", "C03.failfee", "C03.prerun"},
+			Rules:       []string{"C03.mode", "C03.atomic", "C03.nonce", "C03.noncewriters", "C03.failfee", "C03.prerun", "C03.postrun", "C03.alias"},
 		},
 		Run: runC03,
 	})
@@ -53,6 +53,9 @@ func runC03(c *core.Ctx) {
 	c.Floor("C03.alias", nAlias, 250, "in-place big.Int operations examined")
 	checkNonceWriters(c, "C03.noncewriters")
 	checkFailFee(c, "C03.failfee", "C03.prerun")
+	if fn := c.RunTx(); fn != nil {
+		checkPostRun(c, "C03.postrun", fn)
+	}
 }
 
 // C03.mode: every mutator is inside a deliver region.
